@@ -1,10 +1,10 @@
 (* C03/Props.v — the property theorems, nothing else.
    Model: C03/Model.v (mirrors src/ircdb.py capability algebra, CapabilitySet,
    UserCapabilitySet, checkCapability, _checkCapabilityForUnknownUser).
-   Proofs: Fold.v, CaseInsens.v, Anti.v, Total.v, Reach.v, Spec.v, Chan.v, Hist.v, Grant.v. *)
+   Proofs: Fold.v, CaseInsens.v, Anti.v, Total.v, Reach.v, Spec.v, Chan.v, Hist.v, Grant.v, Frame.v. *)
 From Coq Require Import List NArith Bool.
 Import ListNotations.
-Require Import Base.Wire Base.PyStr C03.Model C03.Fold C03.CaseInsens C03.Anti C03.Total C03.Reach C03.Spec C03.Chan C03.Hist C03.Grant.
+Require Import Base.Wire Base.PyStr C03.Model C03.Fold C03.CaseInsens C03.Anti C03.Total C03.Reach C03.Spec C03.Chan C03.Hist C03.Grant C03.Frame.
 
 (* No exception escapes for a well-formed capability (non-empty, no
    whitespace), whatever the database and the three ignore* flags. *)
@@ -318,3 +318,29 @@ Theorem C03_revoke_effective :
     checkCapability (with_caps d S') p f = Ok false.
 Proof. exact revoke_effective. Qed.
 Print Assumptions C03_revoke_effective.
+
+(* What an edit does NOT change (frame).  checkCapability reads the account's
+   own set at 'owner', at the asked capability and its inverse, and for a
+   channel capability at '#chan,op' and its inverse -- nowhere else: two sets
+   that agree there give the same answer, for every database and flag triple. *)
+Theorem C03_check_reads_only :
+  forall d u S2 c f,
+    d_user d = Some u ->
+    smem OWNER (u_caps u) = smem OWNER S2 ->
+    agree (u_caps u) S2 c ->
+    (forall chn cap chanop, chan_parts c = Some (chn, cap) ->
+       makeChannelCapability chn OP = Ok chanop -> agree (u_caps u) S2 chanop) ->
+    checkCapability (with_caps d S2) c f = checkCapability d c f.
+Proof. exact check_frame. Qed.
+Print Assumptions C03_check_reads_only.
+
+(* Hence a successful IrcUser.addCapability(c) moves the answer for no
+   capability c2 whose queried elements are neither (folded) c nor its inverse:
+   granting or revoking one capability never grants or revokes another. *)
+Theorem C03_grant_frame :
+  forall d u c c2 f S',
+    d_user d = Some u -> ucs_add (u_caps u) c = Ok S' ->
+    (forall x, queried c2 x -> ~ touched c x) ->
+    checkCapability (with_caps d S') c2 f = checkCapability d c2 f.
+Proof. exact grant_frame. Qed.
+Print Assumptions C03_grant_frame.
